@@ -18,6 +18,7 @@ import (
 
 	oci "github.com/opencontainers/runtime-spec/specs-go"
 	"tags.cncf.io/container-device-interface/pkg/cdi"
+	specs "tags.cncf.io/container-device-interface/specs-go"
 )
 
 func init() { register("C11", checkC11) }
@@ -55,7 +56,7 @@ func (w *c11World) specFiles(dir string) (spec, other []string) {
 	return
 }
 
-var c11OpKinds = []string{"create-by-write", "touch", "rewrite-in-place", "append", "tmp-rename-inside", "rename-in-from-outside", "hardlink-in", "rename-away", "rename-to-non-spec", "rename-from-non-spec", "unlink", "mkdir-missing", "rmdir-with-content", "recreate-dir", "create-invalid", "chmod", "truncate", "truncate", "rmdir-recreate", "rmdir-recreate", "symlink-in", "symlink-dangling", "symlink-rename-in", "rename-dir-away", "rename-dir-away-recreate"}
+var c11OpKinds = []string{"create-by-write", "touch", "rewrite-in-place", "append", "tmp-rename-inside", "rename-in-from-outside", "hardlink-in", "rename-away", "rename-to-non-spec", "rename-from-non-spec", "unlink", "mkdir-missing", "rmdir-with-content", "recreate-dir", "create-invalid", "chmod", "truncate", "truncate", "rmdir-recreate", "rmdir-recreate", "symlink-in", "symlink-dangling", "symlink-rename-in", "rename-dir-away", "rename-dir-away-recreate", "populated-dir-appears", "populated-dir-appears"}
 
 // do performs one operation; it returns "" when it is not applicable now.
 func (w *c11World) do(kind string) (desc string) {
@@ -233,6 +234,23 @@ func (w *c11World) do(kind string) (desc string) {
 		}
 		must(os.RemoveAll(dir))
 		return "rm -rf " + dir
+	case "populated-dir-appears":
+		// a missing directory appears with its Spec files already in it (renamed into
+		// place): no event anywhere, only a query can notice
+		if exists {
+			return ""
+		}
+		w.n++
+		tmp := filepath.Join(w.staging, fmt.Sprintf("newdir-%d", w.n))
+		must(os.MkdirAll(tmp, 0o755))
+		for i := 0; i <= r.Intn(2); i++ {
+			must(os.WriteFile(filepath.Join(tmp, newName()), w.content(chance(r, 85)), 0o644))
+		}
+		must(os.MkdirAll(filepath.Dir(dir), 0o755))
+		if os.Rename(tmp, dir) != nil {
+			return ""
+		}
+		return "populated directory appears " + dir
 	case "rename-dir-away", "rename-dir-away-recreate":
 		// the directory leaves by being renamed, content and all (and is created
 		// again, populated, at once or by a later operation)
@@ -328,6 +346,13 @@ func checkC11(c *Ctx) {
 			w.dirs = append(w.dirs, d)
 		}
 		all := append([]string{anchor}, w.dirs...)
+		if chance(r, 25) {
+			// the same directories under spellings that are not in their shortest form
+			for i := 1; i < len(all); i++ {
+				all[i] = pickStr(r, all[i]+"/", filepath.Dir(all[i])+"/./"+filepath.Base(all[i]), all[i]+"/.", filepath.Dir(all[i])+"//"+filepath.Base(all[i]), all[i])
+			}
+			c.Count("histories_with_non_clean_directory_spellings", 1)
+		}
 		// the history
 		var history, kinds, pacing []string
 		var armed func()
@@ -479,6 +504,33 @@ func checkC11(c *Ctx) {
 		// bounded progress: at most two rounds of queries
 		fresh, _ := cdi.NewCache(cdi.WithSpecDirs(all...), cdi.WithAutoRefresh(false))
 		want, wantM := cacheState(fresh, all)
+		if chance(r, 50) {
+			// some users only ever inject: the same bounded progress through InjectDevices alone
+			var names []string
+			for q := range wantM["devices"].(map[string]string) {
+				names = append(names, q)
+			}
+			sort.Strings(names)
+			if len(names) > 0 {
+				okInj := false
+				var last string
+				for round := 1; round <= 2 && !okInj; round++ {
+					inj := &oci.Spec{}
+					unres, ierr := a.C.InjectDevices(inj, names...)
+					last = fmt.Sprintf("%s unresolved=%v err=%v", normJSON(inj), unres, ierr)
+					okInj = ierr == nil && len(unres) == 0 && normJSON(inj) == wantM["injected"].(string)
+					if !okInj && !a.Quiesce() {
+						c.Inconclusive("quiesce-timeout")
+						return
+					}
+				}
+				c.Count("histories_observed_through_injection_first", 1)
+				if !okInj {
+					cs.Violation("no-convergence", map[string]string{"last_op": kinds[len(kinds)-1], "last_pacing": pacing[len(pacing)-1], "observed": "InjectDevices only"}, fmt.Sprintf("after the history ended and the watcher drained, two rounds of InjectDevices(%v) - and nothing else - still differ from a fresh cache (last change: %s)\n cache %s\n fresh %s", names, history[len(history)-1], clip(last, 1500), clip(wantM["injected"].(string), 1500)), map[string]any{"configured_dirs": all, "history": history, "watcher_event_trace": a.EventTrace()})
+					return
+				}
+			}
+		}
 		var got string
 		var gotM map[string]any
 		rounds := 0
@@ -513,6 +565,86 @@ func checkC11(c *Ctx) {
 		}
 		c.Sample(4, map[string]any{"history": history, "watcher_events": ev, "rounds_of_queries": rounds})
 	})
+	// a higher-priority directory appears populated (missing at start, or removed and
+	// recreated) and redefines a device the lower one defines too; then the cache is
+	// asked - sometimes by injection only, the way a runtime would
+	c.RunCases("appears", c.pick(80, 1500), 4, func(cs *Case) {
+		r := cs.R
+		root := filepath.Join(c.Scratch, sanitize(cs.Name))
+		anchor, low, high, staging := filepath.Join(root, "anchor"), filepath.Join(root, "low"), filepath.Join(root, "high"), filepath.Join(root, "staging")
+		for _, d := range []string{anchor, low, staging} {
+			must(os.MkdirAll(d, 0o755))
+		}
+		defer os.RemoveAll(root)
+		spec := func(from string, devs ...string) []byte {
+			s := &specs.Spec{Version: "0.6.0", Kind: "vendor.com/gpu"}
+			for _, d := range devs {
+				s.Devices = append(s.Devices, specs.Device{Name: d, ContainerEdits: specs.ContainerEdits{Env: []string{"FROM_" + d + "=" + from}}})
+			}
+			return specBytes(s, pickStr(r, "json", "yaml"))
+		}
+		must(os.WriteFile(filepath.Join(low, "low.json"), spec("low", "dev0", "dev1"), 0o644))
+		recreated := chance(r, 50)
+		if recreated {
+			must(os.MkdirAll(high, 0o755))
+			must(os.WriteFile(filepath.Join(high, "old.json"), spec("high-old", "dev0"), 0o644))
+		}
+		all := []string{anchor, low, high}
+		if chance(r, 30) {
+			all = []string{low, anchor, high + "/"} // a non-clean spelling of the same list
+		}
+		a, err := newAutoCache(root, anchor, all)
+		if err != nil {
+			c.Inconclusive("no-inotify")
+			return
+		}
+		defer a.Close()
+		a.C.ListDevices()
+		if recreated {
+			must(os.RemoveAll(high))
+			if !a.Quiesce() {
+				c.Inconclusive("quiesce-timeout")
+				return
+			}
+			if chance(r, 50) {
+				a.C.ListDevices()
+			}
+		}
+		tmp := filepath.Join(staging, "newhigh")
+		must(os.MkdirAll(tmp, 0o755))
+		must(os.WriteFile(filepath.Join(tmp, "high.json"), spec("high", "dev0"), 0o644))
+		must(os.Rename(tmp, high))
+		injectOnly := chance(r, 60)
+		fresh, _ := cdi.NewCache(cdi.WithSpecDirs(all...), cdi.WithAutoRefresh(false))
+		want, wantM := cacheState(fresh, all)
+		names := []string{"vendor.com/gpu=dev0", "vendor.com/gpu=dev1"}
+		ok := false
+		var got string
+		for round := 1; round <= 2 && !ok; round++ {
+			if injectOnly {
+				inj := &oci.Spec{}
+				unres, ierr := a.C.InjectDevices(inj, names...)
+				got = fmt.Sprintf("%s unresolved=%v err=%v", normJSON(inj), unres, ierr)
+				ok = ierr == nil && len(unres) == 0 && normJSON(inj) == wantM["injected"].(string)
+			} else {
+				got, _ = cacheState(a.C, all)
+				ok = got == want
+			}
+			if !ok && !a.Quiesce() {
+				c.Inconclusive("quiesce-timeout")
+				return
+			}
+		}
+		if os.Getenv("VERIF_DEBUG") != "" {
+			fmt.Fprintf(os.Stderr, "DEBUG %s recreated=%v injectOnly=%v ok=%v got=%s want=%v trace=%v\n", cs.Name, recreated, injectOnly, ok, got, wantM["injected"], a.EventTrace())
+		}
+		c.Count("directories_appearing_populated", 1)
+		c.Distinct(fmt.Sprintf("appears|%v|%v|%d", recreated, injectOnly, len(all[2])-len(high)))
+		if !ok {
+			cs.Violation("no-convergence", map[string]string{"last_op": "populated-dir-appears", "observed": map[bool]string{true: "InjectDevices only", false: "queries"}[injectOnly]}, fmt.Sprintf("a higher-priority directory appeared populated (recreated=%v) and redefines a device; two rounds of %s still differ from a fresh cache\n cache %s\n fresh %s", recreated, map[bool]string{true: "InjectDevices alone", false: "queries"}[injectOnly], clip(got, 1200), clip(fmt.Sprint(wantM["injected"]), 1200)), map[string]any{"configured_dirs": all, "watcher_event_trace": a.EventTrace()})
+		}
+	})
+	c.Floor("directories_appearing_populated", 40)
 	// the directory is replaced at the very moment its watch is being set up
 	// (watch.beforeAdd hook releases a spinning goroutine that removes or renames the
 	// directory away and creates it again, populated): whichever side of the race
